@@ -126,7 +126,7 @@ def wl_history(ctx, rng, i):
     import stix2.base
     tag = "%d-%d" % (ctx.seed, i)
     model = {}
-    steps = ["fresh", "fresh", "duplicate", "builtin", "other-version", "bad-type-name", "bad-prop-name", "fresh", "duplicate", "bad-type-name", "bad-prop-name", "parse-all"]
+    steps = ["fresh", "fresh", "duplicate", "builtin", "other-version", "bad-type-name", "bad-prop-name", "good-prop-name", "fresh", "duplicate", "bad-type-name", "bad-prop-name", "parse-all"]
     n = 0
     for step in steps:
         kind = rng.choice(KINDS)
@@ -240,6 +240,21 @@ def wl_history(ctx, rng, i):
                 ctx.violation("invalid-type-name-registered", "%r is in the registry although its registration must be refused" % bad[:40], dict(w, name=bad[:60]))
             ctx.nontrivial(kind, ver, step, label)
             ctx.see("name rules", "type:" + label)
+        elif step == "good-prop-name":
+            # names that keep the rules although they look like something else: only a name ending in _ref / _refs is a reference property
+            good = rng.choice(["ref", "refs", "xref", "prefs", "ref_x", "refs_of", "a_b", "abc", "x" * 250, "ref1", "a_ref_b", "id_", "type_of", "p2p"])
+            if ver == "2.1" and good[0].isdigit():
+                continue
+            pcname, pc = rng.choice(property_classes(ver)[:2] + property_classes(ver)[3:6])
+            try:
+                register(kind, ver, name, prop_names=("prop_one", good), second=pc)
+                ctx.count("well_named_properties_registered")
+                if looks_up(kind, ver, name) is None:
+                    ctx.violation("registry-lookup-wrong", "%r was registered but is not in the registry" % name, w)
+            except family() as e:
+                ctx.violation("valid-registration-refused:property-name", "%s %s with a property named %r (declared as %s) was refused: %s" % (ver, kind, good[:40], pcname, str(e)[:140]),
+                              dict(w, property=good[:60], declared_as=pcname))
+            ctx.nontrivial(kind, ver, step, good[:10])
         elif step == "bad-prop-name":
             label, bad = rng.choice(BAD_PROP_NAMES)
             if label == "leading-digit-2.1" and ver == "2.0":
@@ -646,6 +661,8 @@ def floors(m, tier):
         out.append("fewer than 800 registration steps")
     if c.get("common_property_parity_probes", 0) < 1000 or c.get("common_property_parity_accepted", 0) < 300:
         out.append("fewer than 1000 common-property probes of custom types against built-in twins (or fewer than 300 accepted ones)")
+    if c.get("well_named_properties_registered", 0) < 50:
+        out.append("fewer than 50 registrations with look-alike but well-formed property names")
     if c.get("names_parsed_before_registration", 0) < 50:
         out.append("fewer than 50 names met in content before their registration")
     if c.get("parses", 0) < 500:
